@@ -53,7 +53,9 @@ def gen_layer(rng):
         else:
             req_ps.append(u8(sid))
             if sub is not None:
-                req_ps.append(u8(sub))
+                # the sub-function as CODED-CONST or as PHYS-CONST: both belong to the constant prefix
+                req_ps.append(u8(sub) if rng.random() < 0.6 else
+                              cc.param(None, dict(k="physconst", dop=cc.simple(cc.std(cc.BUINT, 8)), v=sub)))
         # payload
         for _ in range(rng.choice([0, 0, 1, 1, 2])):
             req_ps.append(cc.param(None, dict(k="value", dop=cc.simple(cc.std(cc.BUINT, rng.choice([8, 8, 16]))), dflt=None)))
@@ -91,7 +93,14 @@ def gen_layer(rng):
             ps.append(cc.param(None, dict(k="matchreq", rqpos=0, len=1)))
         ps.append(cc.param(None, dict(k="value", dop=cc.simple(cc.std(cc.BUINT, 8)), dflt=None)))
         cid += 1
-        gnrs.append(dict(id=cid, name=f"gn{cid}", params=named(ps, f"g{cid}_"), resp=True))
+        g = dict(id=cid, name=f"gn{cid}", params=named(ps, f"g{cid}_"), resp=True)
+        # global negative responses and the negative responses of a service live in different name spaces: a clash of
+        # their short names is legal and changes nothing
+        negs = [c for sv in services for c in sv["neg"]]
+        free = [c["name"] for c in negs if c["name"] not in [x.get("sn") for x in gnrs]]
+        if free and rng.random() < 0.5:
+            g["sn"] = rng.choice(free)     # (short names stay unique among the global negative responses)
+        gnrs.append(g)
     return dict(services=services, gnrs=gnrs)
 
 
@@ -100,7 +109,7 @@ def emit_layer(L):
 
     def msg(tag, c):
         ps = "".join(em.x_param(p) for p in c["params"])
-        return f'<{tag} ID="{c["name"]}"><SHORT-NAME>{c["name"]}</SHORT-NAME><PARAMS>{ps}</PARAMS></{tag}>'
+        return f'<{tag} ID="{c["name"]}"><SHORT-NAME>{c.get("sn", c["name"])}</SHORT-NAME><PARAMS>{ps}</PARAMS></{tag}>'
 
     reqs = "".join(msg("REQUEST", s["req"]) for s in L["services"] if s["req"])
     pos = "".join(msg("POS-RESPONSE", c) for s in L["services"] for c in s["pos"])
@@ -166,7 +175,7 @@ def impl_decode(layer, idmap, msg, rq=None):
         if k[:2] == [-1, 5]:
             k = [-1, 5]
         return k
-    return [0, [[idmap[m.service.short_name], idmap[m.coding_object.short_name], cc.canon_value(m.param_dict)] for m in r]]
+    return [0, [[idmap[m.service.short_name], idmap[m.coding_object.odx_id.local_id], cc.canon_value(m.param_dict)] for m in r]]
 
 
 def norm_model(m):
